@@ -162,8 +162,9 @@ inline TopoReport CheckManifold(const manifold::Manifold& m) {
     snprintf(buf, sizeof buf, "Genus()=%d, export gives %d", m.Genus(), r.genus);
     r.fail("topo:genus-mismatch", buf);
   }
-  if (m.NumPropVert() * size_t(g.numProp) != g.vertProperties.size())
-    r.fail("topo:numpropvert-mismatch", "");
+  // NumPropVert() is not part of the statement (internal property rows may be
+  // compacted on export), so it is not compared.
+  if (m.NumProp() + 3 != size_t(g.numProp)) r.fail("topo:numprop-mismatch", "");
   if (m.IsEmpty() != (r.numTri == 0)) r.fail("topo:isempty-mismatch", "");
   if (!r.ok) return r;
   // 32-bit export must satisfy the same predicate
